@@ -1517,43 +1517,60 @@ def constructible(ctx):
     """LAT-1 (construction): "every lattice with all side lengths >= 2 can be constructed" (an open triangular lattice
     needs an even number of rows).  A raise in __post_init__ guarded by the parity of a side is a refusal of admissible
     lattices unless that side is the row count: the axis whose parity get_nearest_neighbors tests, with the extent that
-    axis is wrapped by."""
+    axis is wrapped by.  Decided on the value graph (path conditions of the raise, terms of the neighbour function), so
+    that temporaries and aliases of self.<side> do not matter."""
+    from ..symex import Evaluator as _Ev
     p = ctx.p
+    SELF_ = sym("self")
+
+    def parity_sides(terms):
+        out = set()
+        for t_ in terms:
+            for x in subterms(t_):
+                if x.op == "binop" and x.args[0] == "%" and is_const(strip_wrappers(x.args[2]), 2):
+                    l_ = strip_wrappers(x.args[1])
+                    if l_.op == "attr" and l_.args[0] is SELF_:
+                        out.add(l_.args[1])
+        return out
+
     for ci in lattice_classes(ctx):
         pi = p.lookup_method(ci.qualname, "__post_init__")
         nn = p.lookup_method(ci.qualname, "get_nearest_neighbors")
         if pi is None:
             continue
+        try:
+            ev = _Ev(p)
+            ev.auto_inline_helpers = True
+            fr = ev.eval_function(pi, self_class=ci.qualname)
+        except Exception:
+            continue
+        refusals = [(path, line) for path, _v, line in fr.raises if parity_sides([c for c, _pol in path if isinstance(c, T)])]
+        if not refusals:
+            continue
         rows = None
-        if nn is not None and nn.pos_params() and len(nn.pos_params()) >= 2:
-            pos = nn.pos_params()[1].name
-            axes = {n_.left.slice.value for n_ in ast.walk(nn.node) if isinstance(n_, ast.BinOp) and isinstance(n_.op, ast.Mod)
-                    and isinstance(n_.right, ast.Constant) and n_.right.value == 2 and isinstance(n_.left, ast.Subscript)
-                    and isinstance(n_.left.value, ast.Name) and n_.left.value.id == pos and isinstance(n_.left.slice, ast.Constant)}
-            if len(axes) == 1:
-                k = next(iter(axes))
-                ext = {n_.right.attr for n_ in ast.walk(nn.node) if isinstance(n_, ast.BinOp) and isinstance(n_.op, ast.Mod)
-                       and isinstance(n_.right, ast.Attribute) and isinstance(n_.right.value, ast.Name) and n_.right.value.id == "self"
-                       and any(isinstance(m_, ast.Subscript) and isinstance(m_.value, ast.Name) and m_.value.id == pos and
-                               isinstance(m_.slice, ast.Constant) and m_.slice.value == k for m_ in ast.walk(n_.left))}
-                if len(ext) == 1:
-                    rows = next(iter(ext))
-        parents = {}
-        for n_ in ast.walk(pi.node):
-            for c_ in ast.iter_child_nodes(n_):
-                parents[c_] = n_
-        for r_ in [n_ for n_ in ast.walk(pi.node) if isinstance(n_, ast.Raise)]:
-            tests, cur = [], r_
-            while cur in parents:
-                par = parents[cur]
-                if isinstance(par, ast.If) and cur in par.body:
-                    tests.append(par.test)
-                cur = par
-            par_sides = {n_.left.attr for t_ in tests for n_ in ast.walk(t_) if isinstance(n_, ast.BinOp) and isinstance(n_.op, ast.Mod)
-                         and isinstance(n_.right, ast.Constant) and n_.right.value == 2 and isinstance(n_.left, ast.Attribute)
-                         and isinstance(n_.left.value, ast.Name) and n_.left.value.id == "self"}
-            if not par_sides:
-                continue
+        if nn is not None and len(nn.pos_params()) >= 2:
+            try:
+                ev2 = _Ev(p)
+                ev2.record_terms = []
+                ev2.eval_function(nn, self_class=ci.qualname)
+                pos = sym(nn.pos_params()[1].name)
+                axes, ext = set(), {}
+                for t_, _l, _f in ev2.record_terms:
+                    for x in subterms(t_):
+                        if x.op == "binop" and x.args[0] == "%":
+                            l_, r_ = strip_wrappers(x.args[1]), strip_wrappers(x.args[2])
+                            ks = {y.args[1].args[0] for y in subterms(l_) if y.op == "getitem" and y.args[0] is pos and
+                                  y.args[1].op == "const" and type(y.args[1].args[0]) is int}
+                            if is_const(r_, 2) and len(ks) == 1:
+                                axes |= ks
+                            elif r_.op == "attr" and r_.args[0] is SELF_ and len(ks) == 1:
+                                ext.setdefault(next(iter(ks)), set()).add(r_.args[1])
+                if len(axes) == 1 and len(ext.get(next(iter(axes)), ())) == 1:
+                    rows = next(iter(ext[next(iter(axes))]))
+            except Exception:
+                rows = None
+        for path, line in refusals:
+            par_sides = parity_sides([c for c, _pol in path if isinstance(c, T)])
             if rows is None:
                 ctx.rep.note(f"{ci.qualname}.__post_init__: raises on the parity of {sorted(par_sides)}; the row axis could not be "
                              f"read off get_nearest_neighbors, the refusal is not judged")
@@ -1562,7 +1579,7 @@ def constructible(ctx):
             ctx.ob("LAT-1", f"{ci.qualname}.__post_init__: a parity refusal concerns the number of rows only", not bad,
                    f"raises when self.{bad[0]} is odd, but the rows (the axis whose parity get_nearest_neighbors tests) are counted "
                    f"by self.{rows}: admissible lattices with an odd self.{bad[0]} cannot be constructed" if bad else
-                   f"parity of self.{rows}", pi, r_.lineno)
+                   f"parity of self.{rows}", pi, line)
 
 
 def run(ctx):
